@@ -317,8 +317,11 @@ func forward(m *RMsg, root string, withCounts bool) {
 		return
 	}
 	cs := func() map[string]any { return msgCase(m, wire, map[string]any{"root_text": root}) }
+	hold("Message.Encode", wire, cs)
 	if w2, err2 := g.Encode(); err2 != nil || !bytes.Equal(w2, wire) {
 		r.Violation("Message.Encode:not-repeatable", fmt.Sprintf("a second Encode of the same message gives different bytes (err=%v)", err2), cs())
+	} else {
+		hold("Message.Encode", w2, cs)
 	}
 	r.Eval(1)
 	// counts recomputed in the struct
@@ -371,6 +374,7 @@ func forward(m *RMsg, root string, withCounts bool) {
 			if p {
 				r.Violation("Message.Validate:panic:"+mon.PanicClass(v), fmt.Sprintf("panic %v at %s", v, mon.TopLibFrame(st)), cs())
 			} else {
+				hold("Message.Encode", again, cs)
 				if hasRoot(m) && (err != nil || !bytes.Equal(again, wire)) {
 					rootTag = ":message-with-root-name"
 				}
@@ -404,7 +408,8 @@ func reverse(m *RMsg, c Comp, tag string) {
 	}
 	cs := func() map[string]any { return msgCase(m, wire, map[string]any{"writer": tag}) }
 	var g *llmnr.Message
-	p, v, st := mon.Guard(func() { g, err = llmnr.DecodeMessage(wire) })
+	in := append([]byte(nil), wire...) // the caller's buffer: overwritten after the call
+	p, v, st := mon.Guard(func() { g, err = llmnr.DecodeMessage(in) })
 	r.Eval(1)
 	ptrs, maxDepth := 0, 0
 	for _, e := range encs {
@@ -431,6 +436,7 @@ func reverse(m *RMsg, c Comp, tag string) {
 		r.Violation("DecodeMessage~ref:"+k, fmt.Sprintf("library decodes a valid %s message differently: %s", kind, d), cs())
 		return
 	}
+	afterDecode(m, g, in, encs, cs)
 	// and what the library re-encodes is again the same content for the reference reader
 	var out []byte
 	p, v, st = mon.Guard(func() { out, err = g.Encode() })
@@ -439,6 +445,7 @@ func reverse(m *RMsg, c Comp, tag string) {
 		r.Violation("Message.Encode:panic:"+mon.PanicClass(v), fmt.Sprintf("panic %v at %s", v, mon.TopLibFrame(st)), cs())
 	} else if err != nil {
 		r.Violation("Message.Encode:error-on-decoded-message", fmt.Sprintf("Encode of a decoded valid message fails: %v", err), cs())
+	} else if hold("Message.Encode", out, cs); false {
 	} else if ref, _, rerr := Unpack(out); rerr != nil {
 		k := "unparseable:" + errClass(rerr)
 		if hasRoot(m) {
@@ -485,6 +492,8 @@ func nameLevel(n Name, tag string) {
 			r.Violation("EncodeDomainName:error-on-valid-name"+k, fmt.Sprintf("EncodeDomainName(%q) = %v", text, err), cs)
 		case !bytes.Equal(got, wire):
 			r.Violation("EncodeDomainName:bytes"+k, fmt.Sprintf("EncodeDomainName(%q) = %x want %x", text, got, wire), cs)
+		default:
+			hold("EncodeDomainName", got, func() map[string]any { return cs })
 		}
 		var verr error
 		p, v, st = mon.Guard(func() { verr = llmnr.ValidateDomainName(text) })
@@ -508,6 +517,14 @@ func nameLevel(n Name, tag string) {
 		if len(n) == 0 {
 			k = ":root"
 		}
+		if !p && err == nil && sameNameText(s, n) {
+			// the caller's buffer is overwritten after the call; the returned name must not change
+			scribble(buf, 0xAA)
+			if !sameNameText(s, n) {
+				r.Violation("DecodeDomainName:input-scribble"+k, fmt.Sprintf("the returned name changed to %q when the caller overwrote the input buffer after the call", s), cs)
+				continue
+			}
+		}
 		switch {
 		case p:
 			r.Violation("DecodeDomainName:panic:"+mon.PanicClass(v), fmt.Sprintf("panic %v at %s", v, mon.TopLibFrame(st)), cs)
@@ -530,6 +547,8 @@ func nameLevel(n Name, tag string) {
 			r.Violation("EncodeDomainName:panic:"+mon.PanicClass(v), fmt.Sprintf("panic %v at %s", v, mon.TopLibFrame(st)), cs)
 		} else if err != nil || !bytes.Equal(re, wire) {
 			r.Violation("EncodeDomainName:reencode-of-decoded"+k, fmt.Sprintf("EncodeDomainName(DecodeDomainName(%x)=%q) = %x, %v", wire, s, re, err), cs)
+		} else {
+			hold("EncodeDomainName", re, func() map[string]any { return cs })
 		}
 	}
 	r.Nontrivial("name|" + tag + "|" + fp(wire))
@@ -620,6 +639,7 @@ func builders(m *RMsg, ips []string) {
 		r.Violation("Message.Add:encode-fails", fmt.Sprintf("Encode after Add* fails: panic=%v err=%v at %s", v, err, mon.TopLibFrame(st)), cs())
 		return
 	}
+	hold("Message.Encode", wire, cs)
 	ref, _, rerr := Unpack(wire)
 	if rerr != nil {
 		r.Violation("Message.Add~ref:unparseable:"+errClass(rerr), fmt.Sprintf("reference cannot parse a message built with Add*: %v", rerr), cs())
@@ -785,7 +805,7 @@ func main() {
 		return
 	}
 	r = mon.Start("C09", "exploration")
-	r.Rule("Messages: every {0,1,max} section-size combination, header/type/class/TTL boundary words, RDATA 0,1,4,16,255,256,65535, root and boundary names (label 1,2,62,63; wire 253..255; every label byte value except '.') in every section, then seeded random messages with suffix-sharing names; each is (a) encoded by the library and read by the reference RFC 1035 reader and by the library, (b) written by the reference writer without and with compression (suffix sharing, chains, partial, pointer-to-root) and read by the library. Hostile names/messages (self, forward, out-of-range, looping, in-segment, header pointers, reserved label types, truncations, chains to the 14-bit limit) are decoded in child processes under a per-call CPU bound. Non-trivial: a message with >=2 populated sections, or a compression pointer, or a boundary-length label/name/RDATA; a distinct name wire form; a distinct hostile buffer.")
+	r.Rule("Messages: every {0,1,max} section-size combination, header/type/class/TTL boundary words, RDATA 0,1,4,16,255,256,65535, root and boundary names (label 1,2,62,63; wire 253..255; every label byte value except '.') in every section, then seeded random messages with suffix-sharing names; each is (a) encoded by the library and read by the reference RFC 1035 reader and by the library, (b) written by the reference writer without and with compression (suffix sharing, chains, partial, pointer-to-root) and read by the library. Hostile names/messages (self, forward, out-of-range, looping, in-segment, header pointers, reserved label types, truncations, chains to the 14-bit limit) are decoded in child processes under a per-call CPU bound. State carried between calls: every encoder output (Message.Encode, EncodeResourceRecord, EncodeQuestion, EncodeDomainName) is held in a ring of 64 beside a private copy and re-compared after each later call and at the end (evicted ones are overwritten); every decoder input is a private buffer that is overwritten with 0xAA after the call and the decoded value compared again (32 decoded messages are held and re-compared later); RDLength fields and header counts are set to stale values (every record / one record / after replacing RDATA of a decoded message) and Encode must still produce the RFC 1035 form of the current fields; 8 goroutines encode/decode unrelated small (<=500 byte) messages and must get the single-caller values. Non-trivial: a message with >=2 populated sections, or a compression pointer, or a boundary-length label/name/RDATA; a distinct name wire form; a distinct hostile buffer.")
 	r.Assume("the reference codec in harness/c09/dns1035.go is a correct reading of RFC 1035 §3.1/§4.1/§4.1.4 (it must read back its own output on every case, else inconclusive)",
 		"RDATA is opaque to both codecs (no compression inside RDATA)",
 		"root name may be rendered \"\" or \".\" by the decoder",
@@ -865,8 +885,12 @@ func main() {
 		builders(m, ipSets[i%len(ipSets)])
 	}
 
-	// 4. hostile pointers, in child processes
+	// 4. state carried between calls and aliasing between buffers
+	carryOver(bm)
+
+	// 5. hostile pointers, in child processes
 	hostile()
 
+	heldFinal()
 	r.Finish()
 }
